@@ -198,6 +198,40 @@ func genC03(g *Gen) {
 		g.do(Step{Op: "Sort", Recv: f, Orders: []Order{{Col: toBS("K"), Rev: true}}, Rid: rid})
 		g.end()
 	}
+	g.sortStringExtremes(rid)
+}
+
+// sortStringExtremes: string keys at the ends of the byte-wise order - one string a prefix of another and
+// extended by the smallest (0x00, 0x01) or largest (0xFF) byte, lengths around a machine word (7, 8, 9, 16, 17),
+// bytes on both sides of 0x7F/0x80 (signed vs unsigned byte comparison) - alone and followed by a second key.
+func (g *Gen) sortStringExtremes(rid BS) {
+	w7, w8 := "abcdefg", "abcdefgh"
+	w16 := w8 + w8
+	pool := []string{"", "\x00", "\x00\x00", "\x01", "a", "a\x00", "a\x00\x00", "a\x00\x01", "a\x01", "a\xff", "ab", "ab\x00", "b",
+		w7, w7 + "\x00", w8, w8 + "\x00", w8 + "\x00\x00", w8 + "\x01", w8 + "i", w7 + "\xff", w16, w16 + "\x00", w16 + "a",
+		"\x7f", "\x80", "\xff", "\xff\xff", "\xff\x00", "a\x7f", "a\x80"}
+	for _, n := range []int{2, 3, 5, 10, 13, 16, 40, 100} {
+		for rep := 0; rep < g.pick(3, 12); rep++ {
+			// a sub-pool of closely related strings, so that neighbours differ only in their tail
+			start := g.rng.Intn(len(pool))
+			width := 2 + g.rng.Intn(6)
+			st, k := make([]*BS, n), make([]int64, n)
+			for i := range st {
+				k[i] = int64(g.rng.Intn(3))
+				if g.rng.Intn(12) != 0 {
+					st[i] = bsp(pool[(start+g.rng.Intn(width))%len(pool)])
+				}
+			}
+			g.begin("sort string extremes")
+			f := g.do(Step{Op: "New", Recv: -1, HasOrder: true, ColOrder: bsList([]string{"S", "K"}),
+				Data: []ColData{{Name: toBS("S"), Kind: "string", Strs: st}, {Name: toBS("K"), Kind: "int", Ints: k}}})
+			f = g.do(Step{Op: "WithRowNums", Recv: f, Dst: rid})
+			g.do(Step{Op: "Sort", Recv: f, Orders: []Order{{Col: toBS("S"), Rev: g.rng.Intn(2) == 0, NullLast: g.rng.Intn(2) == 0}}, Rid: rid})
+			g.do(Step{Op: "Sort", Recv: f, Orders: []Order{{Col: toBS("S")}, {Col: toBS("K"), Rev: true}}, Rid: rid})
+			g.do(Step{Op: "Sort", Recv: f, Orders: []Order{{Col: toBS("K")}, {Col: toBS("S"), Rev: true}}, Rid: rid})
+			g.end()
+		}
+	}
 }
 
 // sortArranged: key columns whose STORAGE is already in order (or in reverse order) while the frame
